@@ -125,6 +125,8 @@ def main():
     t0 = time.time()
     work = tempfile.mkdtemp(prefix='%s-' % prop, dir=workroot())
     rc = 2
+    if spec.get('jaxcache'):
+        env = core.pinned_env({'VERIF_JAXCACHE': os.path.join(work, 'jaxcache')})
     try:
         procs = []
         for w in range(nproc):
@@ -140,7 +142,7 @@ def main():
         spot = spawn(['batch', '--prop', prop, '--tier', a.tier, '--seed', seed,
                       '--start', 0, '--step', 1, '--count', nspot,
                       '--budget-s', budget, '--out', spot_out],
-                     core.pinned_env({'PYTHONHASHSEED': '12345'}))
+                     dict(env, PYTHONHASHSEED='12345'))
         procs.append((spot, spot_out, 'spot'))
 
         hard = budget + spec['watchdog_s'] + 120
@@ -206,8 +208,8 @@ def main():
                 json.dump({'property': prop, 'program': prog, 'target': list(key)}, f)
             m, err = run_sub('minimise', cand, os.path.join(work, 'min.jsonl'), env,
                              timeout=420 if key[2] is None else 200,
-                             extra=['--max-s', 150 if key[2] is None else 40,
-                                    '--max-exec', 200 if key[2] is None else 40])
+                             extra=['--max-s', 150 if key[2] is None else 20,
+                                    '--max-exec', 200 if key[2] is None else 8])
             if m is None:
                 m = {'program': prog, 'result': rows[i], 'executions': 0}
             mv = [v for v in m['result']['violations']
